@@ -195,6 +195,13 @@ defect("length-three-limits", "f")(_set(4, "1...2...3"))
 defect("length-descending", "f")(_set(4, "5...1"))
 defect("length-descending-to-zero", "f", only=lambda rows: not _fixed_only(rows))(_set(4, "5...0"))
 defect("length-ellipsis-only", "f")(_set(4, "..."))
+# values the tokenizer behind ranges and rules refuses: still a defect of that row
+defect("length-unterminated-quote", "f")(_set(4, '"3'))
+defect("length-unbalanced-parenthesis", "f")(_set(4, "(1...5"))
+defect("integer-rule-bad-number-literal", "f", type_name="Integer")(_set(6, "0x...5"))
+defect("integer-rule-double-underscore", "f", type_name="Integer")(_set(6, "1__0"))
+defect("choice-unterminated-quote", "f", type_name="Choice")(_set(6, "'red, green"))
+defect("decimal-rule-unbalanced-parenthesis", "f", type_name="Decimal")(_set(6, "1.5...(9"))
 defect("length-overlapping-items", "f")(_set(4, "1...3, 2...4"))
 defect("length-negative", "f", only=lambda rows: not _fixed_only(rows))(_set(4, "-2...3"))
 defect("fixed-without-length", "f", only=_fixed_only)(_set(4, ""))
